@@ -22,7 +22,7 @@ def cases(tier, seed):
     rng = np.random.default_rng([seed, 2020])
     n = 80 if tier == "quick" else 10000
     for i in range(n):
-        yield {"mesh": gen.random_mesh(rng, 60 if tier == "quick" else 300), "tseed": int(rng.integers(0, 10**6))}
+        yield {"mesh": gen.random_mesh(rng, 60 if tier == "quick" else 300, families=gen.DEFAULT_FAMILIES + ["sample"]), "tseed": int(rng.integers(0, 10**6))}
 
 
 def ugrid_ds(lon, lat, conn):
